@@ -40,7 +40,7 @@ def scenario_to_json(sc):
                 reactions={str(k): [enc_act(a) for a in v] for k, v in sc.reactions.items()},
                 poll=sc.poll, prate=sc.prate, ptimeout=sc.ptimeout, autopong=sc.autopong, ctimeout=sc.ctimeout,
                 conn=sc.conn, wfail=sorted(sc.wfail), compress=sc.compress, protocols=sc.protocols, url=sc.url,
-                key_seed=sc.key_seed, variant=sc.variant, zero=sc.zero, tdiv=sc.tdiv)
+                key_seed=sc.key_seed, variant=sc.variant, zero=sc.zero, tdiv=sc.tdiv, werrno=sc.werrno)
 
 
 def scenario_from_json(j):
@@ -72,7 +72,7 @@ def scenario_from_json(j):
     sc = Scenario([dec_env(s) for s in j['env']], {int(k): [dec_act(a) for a in v] for k, v in j['reactions'].items()},
                   poll=j['poll'], prate=j['prate'], ptimeout=j['ptimeout'], autopong=j['autopong'],
                   ctimeout=j['ctimeout'], conn=j['conn'], wfail=j['wfail'], compress=j['compress'],
-                  protocols=j['protocols'], url=j['url'], key_seed=j['key_seed'], variant=j['variant'], zero=j.get('zero', False), tdiv=j.get('tdiv', 1))
+                  protocols=j['protocols'], url=j['url'], key_seed=j['key_seed'], variant=j['variant'], zero=j.get('zero', False), tdiv=j.get('tdiv', 1), werrno=j.get('werrno', 104))
     return sc
 
 
@@ -192,3 +192,12 @@ def real_one_calls(sc_json):
     except runner.HangError:
         return dict(trace='HANG', calls=[])
     return dict(trace=tr, calls=worlds[0].calls)
+
+
+def real_duo(item):
+    """item = (scenario json a, scenario json b, pattern): two connections alive at the same time (world.run_duo)"""
+    a, b, pattern = item
+    try:
+        return world.run_duo(scenario_from_json(a), scenario_from_json(b), tuple(pattern))
+    except runner.HangError:
+        return ['HANG', 'HANG']
